@@ -30,6 +30,7 @@ type Obligation struct {
 	Time    float64
 	Raw     string
 	Model   map[string]string
+	Relaxed bool // Raw holds a candidate model of the quantifier-free relaxation
 }
 
 type ModelTerm struct {
@@ -80,6 +81,7 @@ type Exec struct {
 	errs   []string
 	loopBodyOnly int
 	inputs []ModelTerm
+	pcNow  string
 }
 
 func newExec(L *Loader, fn *ssa.Function, spec *FuncSpec) *Exec {
@@ -91,6 +93,7 @@ func newExec(L *Loader, fn *ssa.Function, spec *FuncSpec) *Exec {
 			e.checks[k] = v
 		}
 	}
+	e.pcNow = "true"
 	e.prelude()
 	return e
 }
@@ -177,9 +180,16 @@ func (e *Exec) heapSet(st *State, key, sort, term string) {
 }
 
 func (e *Exec) havocAll(st *State) {
+	// package-level variables that are never written outside init keep their value
+	keep := map[string]string{}
+	for k, srt := range e.keySort {
+		if strings.HasPrefix(k, "G:") && e.L.immutableGlobalKey(k) {
+			keep[k] = e.heapGet(st, k, srt)
+		}
+	}
 	e.ngen++
 	st.gen = e.ngen
-	st.heap = map[string]string{}
+	st.heap = keep
 	na := e.fresh("alloc", sRef)
 	e.assume(app(">=", na, st.alloc))
 	st.alloc = na
@@ -219,7 +229,12 @@ func (e *Exec) mergeStates(conds []string, states []*State) *State {
 	}
 	sort.Strings(ks)
 	for _, k := range ks {
-		srt := e.keySort[k]
+		srt, known := e.keySort[k]
+		if !known {
+			// havocked but never read so far (sort unknown): any fresh value will do
+			e.pendingHavoc(out, k)
+			continue
+		}
 		terms := make([]string, len(states))
 		same := true
 		for i, s := range states {
@@ -324,7 +339,7 @@ func (e *Exec) loadField(st *State, ref string, T types.Type, i int) Val {
 	}
 	v := unflatten(f.Type(), &terms)
 	if kindOf(f.Type()) == kSlice {
-		e.once("tinv:"+strings.Join(terms, ","), func() { e.assumeTypeInv(v, "true") })
+		e.once("tinv:"+e.pcNow+":"+strings.Join(terms, ","), func() { e.assumeTypeInv(v, e.pcNow) })
 	}
 	return v
 }
